@@ -150,8 +150,9 @@ def replay_file(path, quiet=False):
     same = [v for v in res.get("violations", []) if v["clause"] == rp["clause"]]
     if same:
         # prefer the violation that reproduces the recorded observation exactly
+        want = json.dumps(rp.get("observed"), sort_keys=True, default=str)
         for v in same:
-            if json.loads(json.dumps(v.get("observed"), default=str)) == rp.get("observed") and v.get("step") == rp.get("step"):
+            if json.dumps(json.loads(json.dumps(v.get("observed"), default=str)), sort_keys=True, default=str) == want and v.get("step") == rp.get("step"):
                 return True, v
         return True, same[0]
     return False, None
@@ -300,7 +301,8 @@ def run_check(pid, tier="quick", seed=0, workers=None, limit=None, verbose=True)
                 json.dump(rp, f, indent=1, sort_keys=True, default=str)
             # replay-twice rule: a fresh process must reproduce the identical observation
             rr = _fresh_process_replay(path)
-            if rr.get("fails") and rr.get("observed") == rp["observed"] and rr.get("step") == rp["step"]:
+            same_obs = json.dumps(rr.get("observed"), sort_keys=True, default=str) == json.dumps(json.loads(json.dumps(rp["observed"], default=str)), sort_keys=True, default=str)
+            if rr.get("fails") and same_obs and rr.get("step") == rp["step"]:
                 reported.append((path, v, len(lst)))
             else:
                 harness_nondet.append((path, v, rr))
